@@ -31,6 +31,20 @@ def setup_worker(tier):
 
 
 def gen_case(rng, i, tier):
+    if i % 5 == 4:
+        # evidence that forces every head of an annotated disjunction false: the optimum is the (rare) null choice
+        L = G.L
+        ps = rng.choice([("0.5", "0.4"), ("0.45", "0.45"), ("0.3", "0.3", "0.3"), ("0.6", "0.3"), ("0.5", "0.45"), ("0.4", "0.3", "0.25")])
+        heads = [[pp, L("h%d" % k)] for k, pp in enumerate(ps)]
+        cl = [["ad", heads, [] if rng.random() < 0.6 else [L("s")]], ["fact", rng.choice(["0.9", "0.5", "1.0"]), L("s")]]
+        for k in range(len(ps)):
+            cl.append(["rule", None, L("c"), [L("h%d" % k)]])
+        ev = [[L("c"), False]]
+        if rng.random() < 0.4:
+            cl.append(["fact", rng.choice(G.PAL), L("z")])
+            cl.append(["rule", None, L("c2"), [L("z"), L("h0", [], True)]])
+            ev.append([L("c2"), True])
+        return dict(prog=dict(consts=[1], clauses=cl, queries=[], evidence=ev), mode=["maxsat", "semiring"][(i // 5) % 2])
     p = G.gen(rng, stratified=True, n_evidence=rng.choice([1, 1, 2, 2, 3]))
     p["queries"] = []
     return dict(prog=p, mode=["maxsat", "semiring"][i % 2])
